@@ -89,6 +89,75 @@ def sweep_cases(both=True):
     return out
 
 
+def through_bound_cases():
+    """Deterministic two- and three-step histories in which a variable of a LOW universe is related with a type
+    that reaches a placeholder of a HIGHER universe (or an unknown left in a higher universe) only THROUGH the
+    stored value of an already-bound variable: the occurs check has to walk stored values (it is also the universe
+    check).  All combinations of: stored value (type placeholder; ADT / tuple / slice / reference / array around a
+    type, lifetime or const placeholder; one or two levels), nesting of the bound variable in the related type
+    (depth 1-2, five type constructors), argument order, which variable is bound first, universes; plus universe
+    promotion through an already-bound variable (then the promoted unknown meets a placeholder)."""
+    tv = L.ty_var
+    item = lambda i, *a: N(("HAdt", i), list(a))
+    R = lambda a, b, v=I: ("SRelate", v, a, b)
+    V = lambda u: ("SNewVar", u)
+    U = "SNewUniverse"
+    cph = lambda u: N(("HCPlaceholder", u, 0), [L.USIZE])
+    values = [
+        lambda u: L.ph(u, 0),
+        lambda u: item(1, L.ph(u, 0)),
+        lambda u: item(1, item(1, L.ph(u, 0))),
+        lambda u: N(("HTuple", 2), [L.BOOL, L.ph(u, 0)]),
+        lambda u: N("HSlice", [L.ph(u, 0)]),
+        lambda u: item(4, L.lph(u, 0)),
+        lambda u: N(("HRef", "Not"), [L.lph(u, 0), L.U32]),
+        lambda u: item(3, L.lph(u, 0), L.ph(u, 0)),
+        lambda u: item(5, L.BOOL, cph(u)),
+        lambda u: N("HArray", [L.BOOL, cph(u)]),
+    ]
+    nests = [
+        lambda x: item(1, x),
+        lambda x: N(("HTuple", 1), [x]),
+        lambda x: N("HSlice", [x]),
+        lambda x: N(("HRef", "Not"), [L.STATIC, x]),
+        lambda x: N(("HRaw", "Not"), [x]),
+        lambda x: item(1, item(1, x)),
+        lambda x: item(2, L.BOOL, N(("HTuple", 2), [x, L.U32])),
+    ]
+    adt = [(1, [I]), (2, [I, I]), (3, [I, I]), (4, [I]), (5, [I, I])]
+    out = []
+
+    def add(pre, steps):
+        out.append((adt, [], pre + steps))
+
+    # ?0 = A (universe ua), ?1 = B (universe ub), ?2 = C (universe ub); placeholders of universe pu
+    univs = [(0, 1, 1), (0, 2, 1), (0, 2, 2), (1, 2, 2), (1, 2, 1), (1, 1, 1), (0, 3, 3), (2, 3, 3)]
+    for (ua, ub, pu) in univs:
+        pre = [U] * 3 + [V(ua), V(ub), V(ub)]
+        A, B, C = tv(0), tv(1), tv(2)
+        full = (ua, ub, pu) == (0, 1, 1)
+        for vi, val in enumerate(values):
+            for ni, nest in enumerate(nests):
+                if not full and not (ni in (0, 5) and vi in (0, 1, 5, 6, 8)):
+                    continue
+                for swap in (False, True):
+                    rel = (lambda x, y: R(y, x)) if swap else R
+                    # B bound first, then A against a type containing B nested
+                    add(pre, [rel(B, val(pu)), rel(A, nest(B))])
+                    # A first (promotes B), then B against the value
+                    add(pre, [rel(A, nest(B)), rel(B, val(pu))])
+                    if full or ni == 0:
+                        # through two bound variables: C := value, B := Adt1<C> (stored value still names C), A against nest(B)
+                        add(pre, [rel(C, val(pu)), rel(B, item(1, C)), rel(A, nest(B))])
+                        # promotion through an already-bound variable: B := Adt1<C>, A against nest(B) promotes C, then C meets the value
+                        add(pre, [rel(B, item(1, C)), rel(A, nest(B)), rel(C, val(pu))])
+        # the direct (not nested) forms, for reference
+        for val in values[:2]:
+            add(pre, [R(B, val(pu)), R(A, B)])
+            add(pre, [R(A, B), R(B, val(pu))])
+    return out
+
+
 def random_cases(ctx, n, r, profile):
     out = []
     for _ in range(n):
@@ -174,7 +243,7 @@ def run(ctx):
     ok, why = ctx.proof_stage("Props.C14", THEOREMS)
     core.build_harness(bins=["infer"])
     r = ctx.rng
-    fams = [("pinned", pinned_cases()), ("sweep", sweep_cases(both=False))]    # both orders of the sweep: C15
+    fams = [("pinned", pinned_cases()), ("through-bound", through_bound_cases()), ("sweep", sweep_cases(both=False))]    # both orders of the sweep: C15
     total = ctx.n(1500, 8000)
     fams.append(("c14-invariant", random_cases(ctx, total // 2, r, PROFILES["c14-invariant"])))
     fams.append(("c14-covariant-lifetime-free", random_cases(ctx, total // 5, r, PROFILES["c14-covariant-lifetime-free"])))
